@@ -150,4 +150,191 @@ theorem probe_spec (t : List ID) (hd : Desc t) (left : Nat) (id : ID) (hl : left
     · have : ¬ k < t.length := by omega
       simp [lessOrEqual, this]
 
+
+theorem Desc.nodup {t : List ID} (h : Desc t) : t.Nodup := by
+  refine List.Pairwise.imp ?_ h
+  intro a b hab heq
+  subst heq
+  simp [ID.lt_irrefl] at hab
+
+/-- everything strictly between LID 0 and `left` is greater than `id` -/
+def Above (t : List ID) (left : Nat) (id : ID) : Prop :=
+  ∀ k, 1 ≤ k → k < left → lessOrEqual t k id = false
+
+/-- the carried state of the loop: `left` is a sound lower border for every ID below `prev` -/
+def LoopInv (t : List ID) (prev : Option ID) (left : Nat) : Prop :=
+  1 ≤ left ∧ left ≤ t.length ∧ ∀ p, prev = some p → Above t left p
+
+def nextLeft (prev : Option ID) (left : Nat) (id : ID) : Nat :=
+  match prev with
+  | none => 1
+  | some p => if id.lt p then left else 1
+
+theorem nextLeft_inv (t : List ID) (hne : 2 ≤ t.length) (prev : Option ID) (left : Nat) (id : ID)
+    (h : LoopInv t prev left) :
+    1 ≤ nextLeft prev left id ∧ nextLeft prev left id ≤ t.length ∧ Above t (nextLeft prev left id) id := by
+  unfold nextLeft
+  cases prev with
+  | none => exact ⟨by omega, by omega, fun k h1 h2 => by omega⟩
+  | some p =>
+    by_cases hlt : id.lt p = true
+    · simp only [hlt, if_true]
+      refine ⟨h.1, h.2.1, fun k h1 h2 => ?_⟩
+      have := h.2.2 p rfl k h1 h2
+      unfold lessOrEqual at *
+      by_cases hk : k < t.length
+      · rw [dif_pos hk] at this ⊢
+        rw [ID.not_le_iff_lt] at this ⊢
+        exact ID.lt_trans hlt this
+      · rw [dif_neg hk] at this; cases this
+    · simp only [hlt]
+      exact ⟨by omega, by omega, fun k h1 h2 => by omega⟩
+
+/-- one iteration: the binary search lands on the first LID >= 1 whose ID is <= `id` (or on `IDsTotal`) -/
+theorem probe_step (t : List ID) (hd : Desc t) (hne : 2 ≤ t.length) (left : Nat) (id : ID)
+    (h1 : 1 ≤ left) (h2 : left ≤ t.length) (ha : Above t left id) :
+    1 ≤ probe t left id ∧ probe t left id ≤ t.length ∧ Above t (probe t left id) id ∧
+    (∀ k, probe t left id ≤ k → lessOrEqual t k id = true) := by
+  have hp := probe_spec t hd left id h2 (by omega)
+  refine ⟨by omega, hp.2.1, ?_, hp.2.2.2⟩
+  intro k hk1 hk2
+  by_cases hk : k < left
+  · exact ha k hk1 hk
+  · exact hp.2.2.1 k (by omega) hk2
+
+/-- the value stored for one ID agrees with `lidOf` -/
+theorem probe_result (t : List ID) (hd : Desc t) (lid : Nat) (id : ID) (h1 : 1 ≤ lid)
+    (ha : Above t lid id) (hb : ∀ k, lid ≤ k → lessOrEqual t k id = true) :
+    (if h : lid < t.length then (if t[lid] = id then lid else 0) else 0) = lidOf t id := by
+  unfold lidOf
+  dsimp only
+  by_cases hl : lid < t.length
+  · rw [dif_pos hl]
+    by_cases he : t[lid] = id
+    · have : t.idxOf id = lid := by rw [← he]; exact List.Nodup.idxOf_getElem hd.nodup lid hl
+      rw [if_pos he, this, if_pos ⟨h1, hl⟩]
+    · rw [if_neg he]
+      by_cases hi : 1 ≤ t.idxOf id ∧ t.idxOf id < t.length
+      · exfalso
+        have hget : t[t.idxOf id] = id := List.getElem_idxOf hi.2
+        have hle : lessOrEqual t (t.idxOf id) id = true := by
+          unfold lessOrEqual; rw [dif_pos hi.2, hget]; exact ID.le_refl id
+        have hge : lid ≤ t.idxOf id := by
+          apply Nat.le_of_not_lt
+          intro hlt
+          rw [ha _ hi.1 hlt] at hle; cases hle
+        have hne : lid ≠ t.idxOf id := by
+          intro heq
+          apply he
+          simp only [heq]
+          exact hget
+        have hlt := hd.getElem_lt (show lid < t.idxOf id by omega) hi.2
+        rw [hget] at hlt
+        have hlid := hb lid (Nat.le_refl _)
+        unfold lessOrEqual at hlid
+        rw [dif_pos hl] at hlid
+        have := ID.lt_le_trans hlt hlid
+        rw [ID.lt_irrefl] at this; cases this
+      · rw [if_neg hi]
+  · rw [dif_neg hl]
+    by_cases hi : 1 ≤ t.idxOf id ∧ t.idxOf id < t.length
+    · exfalso
+      have hget : t[t.idxOf id] = id := List.getElem_idxOf hi.2
+      have hle : lessOrEqual t (t.idxOf id) id = true := by
+        unfold lessOrEqual; rw [dif_pos hi.2, hget]; exact ID.le_refl id
+      rw [ha _ hi.1 (by omega)] at hle; cases hle
+    · rw [if_neg hi]
+
+/-- **the repaired loop finds exactly `lidOf` for every ID list in any order and never probes past the table** -/
+theorem findLIDsFixedGo_spec (t : List ID) (hd : Desc t) (hne : 2 ≤ t.length) (ids : List ID) :
+    ∀ prev left, LoopInv t prev left → findLIDsFixedGo t prev left ids = some (ids.map (lidOf t)) := by
+  induction ids with
+  | nil => intro _ _ _; rfl
+  | cons id rest ih =>
+    intro prev left hinv
+    have hn := nextLeft_inv t hne prev left id hinv
+    have hp := probe_step t hd hne (nextLeft prev left id) id hn.1 hn.2.1 hn.2.2
+    have hr := probe_result t hd (probe t (nextLeft prev left id) id) id hp.1 hp.2.2.1 hp.2.2.2
+    have hnext : LoopInv t (some id) (probe t (nextLeft prev left id) id) :=
+      ⟨hp.1, hp.2.1, fun p hpeq => by cases hpeq; exact hp.2.2.1⟩
+    have ih' := ih (some id) _ hnext
+    unfold findLIDsFixedGo
+    change (if probe t (nextLeft prev left id) id ≤ t.length - 1 then _ else _) = _
+    by_cases hl : probe t (nextLeft prev left id) id < t.length
+    · rw [dif_pos hl] at hr
+      rw [if_pos (by omega), dif_pos hl]
+      dsimp only
+      rw [ih', hr]; rfl
+    · rw [dif_neg hl] at hr
+      rw [if_neg (by omega), ih', ← hr]; rfl
+
+theorem findLIDsFixed_spec (t : List ID) (hd : Desc t) (hne : 2 ≤ t.length) (ids : List ID) :
+    findLIDsFixed t ids = some (ids.map (lidOf t)) :=
+  findLIDsFixedGo_spec t hd hne ids none 1 ⟨by omega, by omega, fun p h => by cases h⟩
+
+/-- some stored ID (LID >= 1) is `<= id`: the binary search cannot run off the table -/
+def Covered (t : List ID) (id : ID) : Prop := lessOrEqual t (t.length - 1) id = true
+
+/-- **the loop as written**: correct on every ID list all of whose members are covered ... -/
+theorem findLIDsGo_spec (t : List ID) (hd : Desc t) (hne : 2 ≤ t.length) (ids : List ID)
+    (hc : ∀ id, id ∈ ids → Covered t id) :
+    ∀ prev left, LoopInv t prev left → findLIDsGo t prev left ids = some (ids.map (lidOf t)) := by
+  induction ids with
+  | nil => intro _ _ _; rfl
+  | cons id rest ih =>
+    intro prev left hinv
+    have hn := nextLeft_inv t hne prev left id hinv
+    have hp := probe_step t hd hne (nextLeft prev left id) id hn.1 hn.2.1 hn.2.2
+    have hr := probe_result t hd (probe t (nextLeft prev left id) id) id hp.1 hp.2.2.1 hp.2.2.2
+    have hl : probe t (nextLeft prev left id) id < t.length := by
+      apply Nat.lt_of_not_le
+      intro hge
+      have hcov := hc id (by simp)
+      unfold Covered at hcov
+      rw [hp.2.2.1 (t.length - 1) (by omega) (by omega)] at hcov
+      cases hcov
+    have hnext : LoopInv t (some id) (probe t (nextLeft prev left id) id) :=
+      ⟨hp.1, hp.2.1, fun p hpeq => by cases hpeq; exact hp.2.2.1⟩
+    have ih' := ih (fun x hx => hc x (by simp [hx])) (some id) _ hnext
+    unfold findLIDsGo
+    change (if h : probe t (nextLeft prev left id) id < t.length then _ else _) = _
+    rw [dif_pos hl] at hr
+    rw [dif_pos hl]
+    dsimp only
+    rw [ih', hr]; rfl
+
+theorem findLIDs_spec (t : List ID) (hd : Desc t) (hne : 2 ≤ t.length) (ids : List ID)
+    (hc : ∀ id, id ∈ ids → Covered t id) : findLIDs t ids = some (ids.map (lidOf t)) :=
+  findLIDsGo_spec t hd hne ids hc none 1 ⟨by omega, by omega, fun p h => by cases h⟩
+
+/-- ... and it panics as soon as one ID is below every stored ID -/
+theorem findLIDsGo_panics (t : List ID) (hd : Desc t) (hne : 2 ≤ t.length) (ids : List ID)
+    (hc : ∃ id, id ∈ ids ∧ ¬ Covered t id) :
+    ∀ prev left, LoopInv t prev left → findLIDsGo t prev left ids = none := by
+  induction ids with
+  | nil => rcases hc with ⟨_, h, _⟩; cases h
+  | cons id rest ih =>
+    intro prev left hinv
+    have hn := nextLeft_inv t hne prev left id hinv
+    have hp := probe_step t hd hne (nextLeft prev left id) id hn.1 hn.2.1 hn.2.2
+    unfold findLIDsGo
+    change (if h : probe t (nextLeft prev left id) id < t.length then _ else _) = _
+    by_cases hl : probe t (nextLeft prev left id) id < t.length
+    · rw [dif_pos hl]
+      dsimp only
+      have hcov : Covered t id := hp.2.2.2 (t.length - 1) (by omega)
+      have hc' : ∃ x, x ∈ rest ∧ ¬ Covered t x := by
+        rcases hc with ⟨x, hx, hnx⟩
+        rcases List.mem_cons.mp hx with rfl | hx
+        · exact absurd hcov hnx
+        · exact ⟨x, hx, hnx⟩
+      have hnext : LoopInv t (some id) (probe t (nextLeft prev left id) id) :=
+        ⟨hp.1, hp.2.1, fun p hpeq => by cases hpeq; exact hp.2.2.1⟩
+      rw [ih hc' (some id) _ hnext]; rfl
+    · rw [dif_neg hl]
+
+theorem findLIDs_panics (t : List ID) (hd : Desc t) (hne : 2 ≤ t.length) (ids : List ID)
+    (hc : ∃ id, id ∈ ids ∧ ¬ Covered t id) : findLIDs t ids = none :=
+  findLIDsGo_panics t hd hne ids hc none 1 ⟨by omega, by omega, fun p h => by cases h⟩
+
 end SV.Fetch
